@@ -646,10 +646,15 @@ func (c *Conn) Seek(offset int64, whence int) (int64, error) {
 
 		if whence == SeekCurrent {
 			c.mutex.Lock()
-			c.offset += offset
-			offset = c.offset
+			if c.offset >= 0 {
+				c.offset += offset
+				offset = c.offset
+				c.mutex.Unlock()
+				return offset, nil
+			}
+			// The current position is still symbolic (first or last offset of
+			// the partition): it can only be resolved by asking the broker.
 			c.mutex.Unlock()
-			return offset, nil
 		}
 	}
 
@@ -662,9 +667,10 @@ func (c *Conn) Seek(offset int64, whence int) (int64, error) {
 		}
 	}
 
+	var current int64
 	if whence == SeekCurrent {
 		c.mutex.Lock()
-		offset = c.offset + offset
+		current = c.offset
 		c.mutex.Unlock()
 	}
 
@@ -678,6 +684,15 @@ func (c *Conn) Seek(offset int64, whence int) (int64, error) {
 		offset = first + offset
 	case SeekEnd:
 		offset = last - offset
+	case SeekCurrent:
+		// FirstOffset and LastOffset are placeholders, not positions.
+		switch current {
+		case FirstOffset:
+			current = first
+		case LastOffset:
+			current = last
+		}
+		offset = current + offset
 	}
 
 	if offset < first || offset > last {
